@@ -90,3 +90,82 @@ Example C04_nonvacuous :
      Done ROk; Done ROk; Done ROk; Done ROk; Done ROk;
      Done ROk; Done ROk; Done (RKeys [[1%N]; [3%N]]); Done (RVal [2%N])].
 Proof. vm_compute. reflexivity. Qed.
+
+(* ====================================================================== Part 4: processes that DIE *)
+(* The schedule may kill any process at any point (DDie p n): its lock is released (assumed fcntl semantics), its
+   handle is gone, and if it was inside a writing session the file keeps max(base, n) bytes for ANY n -- C03's
+   crash model inside C04's transition system.  JD H cm rs s: the lock invariant J, the file is
+   H ++ blocks rs ++ (a torn tail no open handle ever shows), cm = the committed records, rs = cm ++ what the
+   writing session in progress appended so far. *)
+From Molli Require Import Proofs.UKVTorn Model.SessionDeath Proofs.SessionDeath.
+Open Scope list_scope.
+
+(* one step, death included: the invariant is kept, COMMITTED RECORDS ONLY GROW (cm' = cm ++ qs), a living
+   process's step has exactly the abstract map's outcome on the complete records (so a reader never sees a torn
+   or partial record), and a death keeps every committed record and a prefix of the dying session's records *)
+Theorem C04_death_step : forall H cm rs s l s' r,
+  JD H cm rs s -> dstep s l = Some (s', r) ->
+  exists cm' rs', JD H cm' rs' s' /\ (exists qs, cm' = cm ++ qs) /\ dstep_spec cm rs s l r rs'.
+Proof. exact dstep_sound. Qed.
+Print Assumptions C04_death_step.
+
+(* every schedule over any number of processes, with any number of deaths at any points *)
+Theorem C04_death_safe : forall H ls s cm rs,
+  JD H cm rs s ->
+  (exists cm' rs', JD H cm' rs' (snd (drun s ls)) /\ exists qs, cm' = cm ++ qs) /\
+  drun_spec cm rs s ls (fst (drun s ls)).
+Proof. exact drun_safe. Qed.
+Print Assumptions C04_death_safe.
+
+(* it starts from any well-formed library, also one that still carries the torn tail of an earlier death *)
+Theorem C04_death_initial : forall H rs tl n m ow,
+  hdr_ok H -> Forall wfkv rs -> NoDup (map fst rs) -> torn tl ->
+  JD H rs rs (mkd (mkl (H ++ blocks rs ++ tl, repeat h0 n) (repeat p0 m) ow) None).
+Proof. exact JD_init. Qed.
+Print Assumptions C04_death_initial.
+
+(* what JD says about the file and the handles: while a torn tail is present nobody is inside a writing session,
+   and the first writer that opens cuts it (the C02 invariant Inv holds again: tl = []) *)
+Theorem C04_death_file : forall H cm rs s, JD H cm rs s ->
+  exists tl, fst (lw (dl s)) = H ++ blocks rs ++ tl /\ torn tl /\
+             (forall i, closed (hnth (snd (lw (dl s))) i) = false -> full H rs (hnth (snd (lw (dl s))) i)) /\
+             (tl <> [] -> forall i, closed (hnth (snd (lw (dl s))) i) = false -> md (hnth (snd (lw (dl s))) i) = MR) /\
+             (dbase s <> None -> tl = [] /\ Inv H rs (lw (dl s))).
+Proof.
+  intros H cm rs s D. destruct (jd_inv _ _ _ _ D) as [tl [I Ht]]. exists tl.
+  split; [apply (it_file _ _ _ _ I)|]. split; [apply (it_torn _ _ _ _ I)|]. split; [apply (it_open _ _ _ _ I)|].
+  split; [apply (it_nowriter _ _ _ _ I)|]. intros Hb. pose proof (Ht Hb) as E. split; [exact E|].
+  subst tl. apply invT_inv. exact I.
+Qed.
+Print Assumptions C04_death_file.
+
+(* the dead process's lock is free: if nobody else holds it, anybody can acquire in either mode *)
+Theorem C04_death_releases_lock : forall s p n s' r,
+  dstep s (DDie p n) = Some (s', r) ->
+  plock (pnth (procs (dl s')) p) = LFree /\
+  (forall q, q <> p -> pnth (procs (dl s')) q = pnth (procs (dl s)) q) /\
+  ((forall q, q <> p -> plock (pnth (procs (dl s)) q) = LFree) ->
+   forall q w, (q < List.length (procs (dl s')))%nat ->
+     exists s'', lstep (dl s') (LAcq q w) = Some (s'', ROk) /\ plock (pnth (procs s'') q) = (if w then LWrite else LRead)).
+Proof. exact death_releases. Qed.
+Print Assumptions C04_death_releases_lock.
+
+(* Non-vacuity: a writer puts two records and dies when only 9 bytes of its session reached the file (the first
+   record, 7 bytes, and 2 bytes of the second): a reader in another process sees exactly the first record, the
+   next writer appends behind it (the torn bytes are cut), and the final reader sees both complete records. *)
+Example C04_death_nonvacuous :
+  let H := mk_header (repeat 77%N 16) [] [] in
+  let base := N.of_nat (List.length H) in
+  let out := drun (mkd (mkl (H, repeat h0 3) (repeat p0 3) [0; 1; 2]%nat) None)
+        [DL (LAcq 0 true); DL (LOpen 0 0); DL (LDo 0 (Put 0 [1%N] [2%N])); DL (LDo 0 (Put 0 [3%N] [4%N; 5%N]));
+         DL (LAcq 1 false);                      (* refused: the writer holds the lock *)
+         DDie 0 (base + 9);
+         DL (LAcq 1 false); DL (LOpen 1 1); DL (LDo 1 (Keys 1)); DL (LDo 1 (Get 1 [3%N])); DL (LClose 1); DL (LRel 1);
+         DL (LAcq 2 true); DL (LOpen 2 2); DL (LDo 2 (Put 2 [3%N] [6%N])); DL (LClose 2); DL (LRel 2);
+         DL (LAcq 1 false); DL (LOpen 1 1); DL (LDo 1 (Keys 1)); DL (LDo 1 (Get 1 [3%N]))] in
+  fst out = [Done ROk; Done ROk; Done ROk; Done ROk; Refused; Done ROk;
+             Done ROk; Done ROk; Done (RKeys [[1%N]]); Done (RErr EKey); Done ROk; Done ROk;
+             Done ROk; Done ROk; Done ROk; Done ROk; Done ROk;
+             Done ROk; Done ROk; Done (RKeys [[1%N]; [3%N]]); Done (RVal [6%N])]
+  /\ fst (lw (dl (snd out))) = H ++ encb [1%N] [2%N] ++ encb [3%N] [6%N].
+Proof. vm_compute. split; reflexivity. Qed.
